@@ -131,12 +131,18 @@ std::string SuppressionList::parseXmlFile(const char *filename)
                 s.errorId = text;
             else if (std::strcmp(name, "fileName") == 0)
                 s.fileName = Path::simplifyPath(text);
-            else if (std::strcmp(name, "lineNumber") == 0)
-                s.lineNumber = strToInt<int>(text);
+            else if (std::strcmp(name, "lineNumber") == 0) {
+                std::string err;
+                if (!strToInt(text, s.lineNumber, &err))
+                    return std::string("invalid lineNumber '") + text + "' in suppressions XML '" + filename + "' (" + err + ").";
+            }
             else if (std::strcmp(name, "symbolName") == 0)
                 s.symbolName = text;
-            else if (*text && std::strcmp(name, "hash") == 0)
-                s.hash = strToInt<std::size_t>(text);
+            else if (*text && std::strcmp(name, "hash") == 0) {
+                std::string err;
+                if (!strToInt(text, s.hash, &err))
+                    return std::string("invalid hash '") + text + "' in suppressions XML '" + filename + "' (" + err + ").";
+            }
             else
                 return std::string("unknown element '") + name + "' in suppressions XML '" + filename + "', expected id/fileName/lineNumber/symbolName/hash.";
         }
